@@ -5,6 +5,8 @@
                                                                 verbatim to the session (syntax of coq/Sess/READY.md)
      P <n>                 the counterparty's next outbound number := n   (before its first message; default 1)
      LOGON                 the counterparty sends its Logon (98=0, 108=<hb of the START>)
+     LOGON N / LOGON Y     the same with ResetSeqNumFlag (141) = N, explicitly / = Y (the counterparty then restarts its own
+                           numbering at 1)
      M <type> [<tag>=<hex>,...]    the counterparty sends a message of this type with these body fields: it takes the
                                    counterparty's next number and arrives
                                    (any type: application, 0 Heartbeat, 1 TestRequest, 3 Reject, 5 Logout, 4 an unsolicited
@@ -27,6 +29,7 @@ Inductive act :=
 | ASess (txt : bytes) (o : op)
 | APeerNum (n : N)
 | ALogon
+| ALogonR (y : bool)
 | AMsg (lost : bool) (t : bytes) (body : list (N * bytes))
 | ADecide (l : list bool).
 
@@ -50,7 +53,11 @@ Definition parse_act (t : bytes) : act :=
       | a :: _ => match parse_num a with Some n => APeerNum n | None => ASess t OBad end
       | [] => ASess t OBad
       end
-    else if beq name [76;79;71;79;78] then ALogon                (* LOGON *)
+    else if beq name [76;79;71;79;78] then                       (* LOGON [N|Y] *)
+      match args with
+      | [] => ALogon
+      | a :: _ => if beq a [89] then ALogonR true else if beq a [78] then ALogonR false else ASess t OBad
+      end
     else if beq name [77] then parse_pmsg t false args           (* M *)
     else if beq name [76] then parse_pmsg t true args            (* L *)
     else if beq name [88] then ADecide (match args with a :: _ => parse_bits a | [] => [] end)   (* X *)
